@@ -268,7 +268,7 @@ int64_t carquet_rle_decoder_skip(
  * ============================================================================
  */
 
-static void write_varint(carquet_buffer_t* buf, uint32_t value) {
+static carquet_status_t write_varint(carquet_buffer_t* buf, uint32_t value) {
     uint8_t bytes[5];
     int len = 0;
 
@@ -278,7 +278,7 @@ static void write_varint(carquet_buffer_t* buf, uint32_t value) {
     }
     bytes[len++] = (uint8_t)value;
 
-    carquet_buffer_append(buf, bytes, (size_t)len);
+    return carquet_buffer_append(buf, bytes, (size_t)len);
 }
 
 static void flush_rle(carquet_rle_encoder_t* enc) {
@@ -288,7 +288,9 @@ static void flush_rle(carquet_rle_encoder_t* enc) {
         int64_t run = enc->repeat_count > INT32_MAX ? INT32_MAX : enc->repeat_count;
 
         /* Write RLE header: (count << 1) | 0 */
-        write_varint(enc->buffer, (uint32_t)(run << 1));
+        if (write_varint(enc->buffer, (uint32_t)(run << 1)) != CARQUET_OK) {
+            enc->status = CARQUET_ERROR_OUT_OF_MEMORY;
+        }
 
         /* Write value (ceil(bit_width/8) bytes) */
         int value_bytes = (enc->bit_width + 7) / 8;
@@ -296,7 +298,9 @@ static void flush_rle(carquet_rle_encoder_t* enc) {
         for (int i = 0; i < value_bytes; i++) {
             bytes[i] = (uint8_t)(enc->prev_value >> (i * 8));
         }
-        carquet_buffer_append(enc->buffer, bytes, (size_t)value_bytes);
+        if (carquet_buffer_append(enc->buffer, bytes, (size_t)value_bytes) != CARQUET_OK) {
+            enc->status = CARQUET_ERROR_OUT_OF_MEMORY;
+        }
 
         enc->repeat_count -= run;
     }
@@ -312,13 +316,17 @@ static void flush_bitpack(carquet_rle_encoder_t* enc) {
 
     /* Write bit-packed header: (num_groups << 1) | 1 */
     int num_groups = (int)((enc->bitpack_total + 7) / 8);
-    write_varint(enc->buffer, (uint32_t)((num_groups << 1) | 1));
+    if (write_varint(enc->buffer, (uint32_t)((num_groups << 1) | 1)) != CARQUET_OK) {
+        enc->status = CARQUET_ERROR_OUT_OF_MEMORY;
+    }
 
     /* Write packed data for all groups */
     uint8_t packed[32];  /* Max for 32-bit values, 8 values */
     for (int g = 0; g < num_groups; g++) {
         carquet_bitpack8_32(enc->bitpack_buffer, enc->bit_width, packed);
-        carquet_buffer_append(enc->buffer, packed, (size_t)enc->bit_width);
+        if (carquet_buffer_append(enc->buffer, packed, (size_t)enc->bit_width) != CARQUET_OK) {
+            enc->status = CARQUET_ERROR_OUT_OF_MEMORY;
+        }
 
         /* Shift remaining values */
         /* Note: This simplified impl assumes we flush after each group */
@@ -433,7 +441,7 @@ carquet_status_t carquet_rle_encoder_flush(carquet_rle_encoder_t* enc) {
         }
     }
 
-    return CARQUET_OK;
+    return enc->status;
 }
 
 /* ============================================================================
